@@ -22,6 +22,10 @@ pub enum Op {
     Cleanup,
     /// `sync_and_flush_to_disk(with_cleanup)`
     Flush { with_cleanup: bool },
+    /// `sync_and_flush_to_disk(false)` while the cache path cannot be written (a directory lies in its
+    /// place); the obstacle is removed and the file put back afterwards. A flush that fails must not lose
+    /// what the store knew: the peers are in no file yet
+    FailedFlush,
     /// `write()` followed by `load_cache_data` (save → load)
     Write,
     /// `load_cache_data` + the `PeersArgs::get_bootstrap_addr` reader
@@ -53,6 +57,7 @@ fn op_strategy() -> BoxedStrategy<Op> {
         7 => Just(Op::Cleanup),
         13 => any::<bool>().prop_map(|with_cleanup| Op::Flush { with_cleanup }),
         3 => Just(Op::Write),
+        3 => Just(Op::FailedFlush),
         6 => Just(Op::Load),
         11 => clean_file_strategy().prop_map(Op::Plant),
         3 => corrupt_strategy().prop_map(Op::PlantCorrupt),
@@ -340,6 +345,7 @@ pub fn check(case: &History, ctx: &mut Ctx) {
     };
     let mut rendered: Vec<String> = vec![];
     let mut merges_with_planted = 0u32;
+    let mut failed_flushes_with_peers = 0usize;
     let mut limit_hits = 0u32;
     let mut planted_since_flush = false;
 
@@ -464,6 +470,41 @@ pub fn check(case: &History, ctx: &mut Ctx) {
                 }
                 mem_state(ctx, cfg, &store, false);
             }
+            Op::FailedFlush => {
+                rendered.push("sync_and_flush_to_disk(false) with the cache path obstructed".into());
+                let mem = snap_store(&store);
+                // put the present file aside and a directory in its place
+                let aside = w.path.with_extension("aside");
+                let had_file = std::fs::rename(&w.path, &aside).is_ok();
+                let obstructed = std::fs::create_dir_all(&w.path).is_ok();
+                let res = if obstructed { guard(ctx, "sync_and_flush_to_disk", || store.sync_and_flush_to_disk(false)) } else { None };
+                let _ = std::fs::remove_dir_all(&w.path);
+                if had_file {
+                    let _ = std::fs::rename(&aside, &w.path);
+                }
+                let Some(res) = res else { break };
+                match res {
+                    Ok(()) => {
+                        // claims to have flushed although the path was a directory: where to is unknown, nothing is judged
+                        ctx.label("obstructed_flush_reported_ok");
+                        break;
+                    }
+                    Err(_) => {
+                        ctx.label("flush_failed_on_obstructed_path");
+                        ctx.label_if(!mem.ents.is_empty(), "flush_failed_with_peers_in_memory");
+                        let after = snap_store(&store);
+                        let (have, want) = (after.ids(), mem.ids());
+                        if let Some(id) = want.iter().find(|id| !have.contains(*id)) {
+                            ctx.fail(
+                                "failed_flush:lost_memory_addr",
+                                format!("the flush returned an error (path obstructed) and afterwards the store no longer knows {id:?}, which is in no file either; memory before: {}; after: {}", mem.brief(), after.brief()),
+                            );
+                            break;
+                        }
+                        failed_flushes_with_peers += !mem.ents.is_empty() as usize;
+                    }
+                }
+            }
             Op::Write => {
                 rendered.push("write + load".into());
                 let mem = snap_store(&store);
@@ -544,6 +585,7 @@ pub fn check(case: &History, ctx: &mut Ctx) {
     // non-triviality (DESIGN §3 C18): a merge against a planted file and a limit hit
     ctx.nontrivial_if(merges_with_planted > 0 && limit_hits > 0);
     ctx.label_if(merges_with_planted > 0, "history_has_merge_with_planted_file");
+    ctx.label_if(failed_flushes_with_peers > 0, "history_has_failed_flush_with_peers_in_memory");
     ctx.label_if(limit_hits > 0, "history_has_limit_hit");
     let shown: Vec<&String> = rendered.iter().take(14).collect();
     ctx.sample = Some(json!({
